@@ -1007,7 +1007,7 @@ Proof.
     + apply delta_same. reflexivity.
     + cbn [step]. rewrite Hc. reflexivity.
   - (* disconnect (of a connection that is not blocked) *)
-    apply (Fin (del_conn s c) (if is_blocked b c then with_dead b (c :: b_dead b) else b)).
+    apply (Fin (del_conn s c) (if is_blocked b c then with_dead b (c :: b_dead b) else with_reg b (unregister_all (b_reg b) c))).
     + destruct (is_blocked b c); exact Hc.
     + destruct CI as [C1 C2 C3 C4 C5]. constructor; cbn [del_conn s_dbs s_conns s_password]; try assumption.
       * intros c' cn' Hl. apply zlookup_zremove_some in Hl. eapply C3; exact Hl.
